@@ -2287,9 +2287,16 @@ const STALL_KEYS: [&str; 8] =
 /// … all reported under this key when the focus is C04
 const STALL_KEY: &str = "bridge-stalled";
 
+/// The monitors that speak about byte integrity (C02's share of the bridge: `into_copy_bidirectional` is the
+/// library's own reader of a stream through `poll_fill_buf` / `consume` and its own writer of Push frames:
+/// what it hands to the local side must be, at every moment, a prefix of what the peer wrote, each byte once
+/// and in order, and what reaches the peer must be what the local side produced).
+const INTEGRITY_KEYS: [&str; 3] = ["relay-in", "relay-out", "consume-order"];
+
 #[derive(Clone, Copy, Debug, PartialEq, Eq)]
 enum Focus {
     C13,
+    C02,
     C03,
     C04,
 }
@@ -2299,6 +2306,7 @@ impl Focus {
     fn key(self, k: &str) -> Option<String> {
         match self {
             Focus::C13 => Some(k.to_string()),
+            Focus::C02 => INTEGRITY_KEYS.contains(&k).then(|| format!("bridge:{k}")),
             Focus::C03 => CREDIT_KEYS.contains(&k).then(|| k.to_string()),
             Focus::C04 => STALL_KEYS.contains(&k).then(|| STALL_KEY.to_string()),
         }
@@ -2418,6 +2426,10 @@ fn main() {
     // `--focus C03`: the run that C03's check makes (copy_bidirectional.rs is one of the places where credit
     // is taken and Push frames are sent): the bulk family, the small enumerated families and random cases;
     // only the credit monitors are reported (everything else about the bridge is C13's).
+    // `--focus C02`: the run that C02's check makes (the forwarding loop reads the stream through
+    // `poll_fill_buf` / `consume`, "one frame at a time, keeping the remainder", and relays it to a local side
+    // that may take part of a frame and then stall): the bulk-in families, the mini-bursts, the small
+    // enumerated families and random cases; only the byte-integrity monitors (`INTEGRITY_KEYS`) are reported.
     // `--focus C04`: the run that C04's check makes (the forwarding loop is the library's own writer on a
     // stream; "every write at the sending end completes and every byte written becomes readable while the
     // receiving application keeps reading" must hold for what it forwards): the huge-burst family, its
@@ -2425,6 +2437,7 @@ fn main() {
     // progress monitors (`STALL_KEYS`) are reported, all under the key `bridge-stalled`.
     let focus = match args.opt("--focus") {
         None | Some("C13") => Focus::C13,
+        Some("C02") => Focus::C02,
         Some("C03") => Focus::C03,
         Some("C04") => Focus::C04,
         Some(other) => panic!("unknown focus {other}"),
@@ -2458,6 +2471,7 @@ non-trivial = at least one byte was relayed or the bridge was polled at least tw
     // thread) and their small-scale analogues; not part of C03's run
     let (n_huge, n_mini) = match (args.tier, focus) {
         (_, Focus::C03) => (0, 0),
+        (Tier::Quick, Focus::C02) => (0, 400),
         (Tier::Quick, Focus::C13) => (16, 400),
         (Tier::Quick, Focus::C04) => (24, 400),
         (Tier::Thorough, _) => (96, 20_000),
@@ -2540,6 +2554,12 @@ every bridge poll, {} window/threshold pairs of the bridge's endpoint, the other
     rep.notes.push(format!(
         "{n_huge} huge-burst cases: 4-10 MiB readable at once on the local side (every poll_fill_buf Ready with a piece of 8 KiB - 1 MiB until the data is exhausted, then end-of-file / Pending with a wake-up and a last piece / Pending for good / Pending with a wake-up and a second burst of 4-5 MiB), the local sink accepts everything, the peer (window 1-8) keeps reading and acknowledging, driven to quiescence (`drain`: the bridge is polled whenever and only when it is woken); MONITORS ONLY, not compared with the model (the model's byte strings are linked lists; these {n_huge} cases are not in the model-compared count); {n_mini} mini-burst cases of the same shape (4-40 pieces of 1-4 bytes, `drain` steps) which are compared with the model when a driver is given"
     ));
+    if focus == Focus::C02 {
+        rep.notes.push(format!(
+            "focus C02: only the byte-integrity monitors are reported ({}), under the keys `bridge:<monitor>`",
+            INTEGRITY_KEYS.join(", ")
+        ));
+    }
     if focus == Focus::C04 {
         rep.notes.push(format!(
             "focus C04: only the progress monitors are reported ({}), all under the key `{STALL_KEY}`; no model comparison in this run",
